@@ -17,13 +17,15 @@ func init() { register("C06", "other", checkC06) }
 //	SCRATCH-REINIT  a partial block is staged in the scratch block only over bytes that are zero or were cleared since the
 //	                last vector load consumed the block (this is GHASH's zero padding of the last block of the nonce, of
 //	                the additional data and of the ciphertext);
+//	REGISTER-DEFINED no vector or mask register is read before the routine has written it on every path (the output must
+//	                be a function of the inputs; a register left over from an earlier call is not one);
 //	EXTENT          while doing so no access leaves the slices (shared with C11; repeated here because a short read is a
 //	                wrong GHASH input before it is a memory-safety problem).
 //
 // Not decided: the values - the GF(2^128) multiplication, the counter arithmetic, the composition of E_K, GHASH and the
 // length block. Their constants are decided by C18, the shape of Open by C07.
 func checkC06(c *Ctx, r *Report) {
-	r.Explanation = "Structural necessary conditions of Seal's value on the fused amd64 routine sealAsm, by abstract interpretation of its general registers over affine forms (engine A4: branch facts, loop induction variables, quotient/remainder symbols, path states): CONSUMPTION - nonce, additional data and plaintext are each streamed to their end, without a gap, on every path, and the destination is produced up to plaintext.len; SCRATCH-REINIT - every partial block (1..15 bytes of nonce, additional data, plaintext) is staged over zero or freshly cleared scratch bytes, which is the zero padding GHASH requires; EXTENT - no access outside the contract. NOT decided: the values (GF(2^128) multiplication, counter arithmetic, the composition of E_K, GHASH and the length block); the constants they use are decided by C18. The arm64 path computes the same composition in Go around block kernels; its buffer shape is decided by C10/C11 and nothing of its value is claimed here."
+	r.Explanation = "Structural necessary conditions of Seal's value on the fused amd64 routine sealAsm, by abstract interpretation of its general registers over affine forms (engine A4: branch facts, loop induction variables, quotient/remainder symbols, path states): CONSUMPTION - nonce, additional data and plaintext are each streamed to their end, without a gap, on every path, and the destination is produced up to plaintext.len; SCRATCH-REINIT - every partial block (1..15 bytes of nonce, additional data, plaintext) is staged over zero or freshly cleared scratch bytes, which is the zero padding GHASH requires; REGISTER-DEFINED - every vector and mask register is written on every path before it is read (definite assignment over the CFG), so the output cannot depend on what an earlier call left in a register; EXTENT - no access outside the contract. NOT decided: the values (GF(2^128) multiplication, counter arithmetic, the composition of E_K, GHASH and the length block); the constants they use are decided by C18. The arm64 path computes the same composition in Go around block kernels; its buffer shape is decided by C10/C11 and nothing of its value is claimed here."
 	r.Trusted = []string{"go tool asm -S listing, opcode table (access widths)", "the scratch block is zero on entry (a fresh local array of Seal: decided by the glue domain of C10/C11)", "g.tagSize is in [12,16] when Seal runs (crypto/cipher validates it)", "exact rational simplex for path facts"}
 	u, _ := loadAsmBound(c, r, "amd64")
 	if u == nil {
@@ -66,6 +68,17 @@ func checkC06(c *Ctx, r *Report) {
 		r.Ok("SCRATCH-REINIT", "amd64/sealAsm", "sm4/"+rt.File, fmt.Sprintf("%d vector loads from the scratch block on all paths: none reads bytes left over from an earlier staging (zero padding of partial blocks)", res.scratchLoads))
 	}
 	r.Count("scratch_loads", res.scratchLoads)
+	// REGISTER-DEFINED: Seal's output is a function of its inputs only if no vector register is read before the routine
+	// has written it (registers carry whatever the previous call left: stale hash-key powers, a stale counter)
+	if undef := VecDefBeforeUse(rt, flow); len(undef) > 0 {
+		for i, u := range undef {
+			if i < 6 {
+				r.Viol("REGISTER-DEFINED", "amd64/sealAsm: "+u[strings.Index(u, ": ")+2:], "sm4/"+u[:strings.Index(u, ": ")], "a vector register is read before it is written on some path from the entry: the result depends on what an earlier call left in it")
+			}
+		}
+	} else {
+		r.Ok("REGISTER-DEFINED", "amd64/sealAsm", "sm4/"+rt.File, "every vector and mask register is written on every path before it is read (definite assignment over the routine's CFG; zeroing idioms are writes)")
+	}
 	nacc, bad := 0, 0
 	for _, a := range res.accesses {
 		nacc++
